@@ -427,6 +427,38 @@ func runC04(c *Ctx) {
 		}
 		rep.Eval(fmt.Sprintf("stream/%dMiB", sz>>20))
 	})
+	// (e2) very large *single* calls: one Write / one Sm3Sum of a megabyte and more (an implementation may treat a big
+	// input differently from the same bytes fed in pieces)
+	bigs := []int{1 << 20, 1<<20 + 1, 2<<20 + 5, 3<<20 + 64}
+	if c.Thorough {
+		bigs = append(bigs, 33<<20+7)
+	}
+	Par(len(bigs), func(i int) {
+		sz := bigs[i]
+		msg := make([]byte, sz)
+		c.Rng(fmt.Sprintf("bigcall%d", i)).Fill(msg)
+		rh := ref.NewSM3Stream()
+		rh.Write(msg)
+		want := rh.Sum(nil)
+		w := map[string]interface{}{"size": sz}
+		h := sm3.New()
+		h.Write(msg)
+		if g := h.Sum(nil); !bytes.Equal(g, want) {
+			rep.Violation("C04/Hash.Write/single-large-write-mismatch", fmt.Sprintf("one Write of %d bytes: got %x want %x", sz, g, want), w)
+		}
+		if g := sm3.Sm3Sum(msg); !bytes.Equal(g, want) {
+			rep.Violation("C04/Sm3Sum/large-input-mismatch", fmt.Sprintf("%d bytes: got %x want %x", sz, g, want), w)
+		}
+		// a large write after a few pending bytes, then a tail
+		h2 := sm3.New()
+		h2.Write(msg[:7])
+		h2.Write(msg[7 : sz-3])
+		h2.Write(msg[sz-3:])
+		if g := h2.Sum(nil); !bytes.Equal(g, want) {
+			rep.Violation("C04/Hash.Write/large-write-after-pending-bytes-mismatch", fmt.Sprintf("%d bytes as 7 + %d + 3", sz, sz-10), w)
+		}
+		rep.Eval(fmt.Sprintf("single-call/%dMiB+%d", sz>>20, sz&(1<<20-1)))
+	})
 	rep.Note("bit-length trailer bytes above length>>32 (inputs >= 128 GiB) are out of reach")
 }
 
